@@ -48,7 +48,7 @@ MUTANTS += [
     # ---- C08
     M("c08-revert-fix", "C08", "reply encoding error escapes again (revert of b9a4d49)", (P, "            except Exception:\n                # the result could not be boxed or encoded (nothing was sent yet):\n                # the requester still gets exactly one response - this error\n                self._send_exception(seq, *sys.exc_info())", "            except ZeroDivisionError:\n                pass")),
     M("c08-double-reply", "C08", "PING answered twice", (P, "    def _handle_ping(self, data):  # request handler\n        return data", "    def _handle_ping(self, data):  # request handler\n        import inspect\n        self._send(consts.MSG_REPLY, inspect.currentframe().f_back.f_locals['seq'], self._box(data))\n        return data")),
-    M("c08-get-not-pop", "C08,C13", "callback looked up with get, not pop", (P, "_callback = self._request_callbacks.pop(seq, None)", "_callback = self._request_callbacks.get(seq, None)")),
+    M("c08-get-not-pop", "EQUIVALENT", "(equivalent: sequence numbers are never reused, so a stale callback is never hit) callback looked up with get, not pop", (P, "_callback = self._request_callbacks.pop(seq, None)", "_callback = self._request_callbacks.get(seq, None)")),
     M("c08-exc-no-reply", "C08", "StopIteration from a handler gets no response", (P, "            if t is KeyboardInterrupt and self._config[\"propagate_KeyboardInterrupt_locally\"]:\n                raise", "            if t is KeyboardInterrupt and self._config[\"propagate_KeyboardInterrupt_locally\"]:\n                raise\n            if t is StopIteration and seq % 7 == 6:\n                return")),
     M("c08-reply-in-try", "C08", "reply sent inside try: failure of send answered twice", (P, "            res = self._HANDLERS[handler](self, *args)\n        except:", "            res = self._HANDLERS[handler](self, *args)\n            if handler == consts.HANDLE_CALL and type(res) is list:\n                self._send(consts.MSG_REPLY, seq, self._box(res))\n        except:")),
     M("c08-bad-handler-silent", "C08", "unknown handler id silently ignored", (P, "            handler, args = raw_args\n            args = self._unbox(args)", "            handler, args = raw_args\n            if handler not in self._HANDLERS:\n                return\n            args = self._unbox(args)")),
@@ -168,4 +168,15 @@ MUTANTS += [
     M("c11-close-waits", "C11", "close() waits for a reply to its close request", (P, "            self._async_request(consts.HANDLE_CLOSE)\n        except EOFError:", "            self.async_request(consts.HANDLE_CLOSE).wait()\n        except EOFError:")),
     M("c11-eof-not-closing", "C11", "serve(): EOF while receiving re-raised without close()", (P, "        except EOFError:\n            self.close()\n            raise\n        finally:\n            self._recvlock.release()", "        except EOFError:\n            raise\n        finally:\n            self._recvlock.release()")),
     M("c11-closed-flag-late", "C11", "_cleanup: flag set after the hook", (P, "        self._closed = True\n        self._channel.close()\n        self._local_root.on_disconnect(self)", "        self._channel.close()\n        self._local_root.on_disconnect(self)\n        self._closed = True")),
+]
+
+MUTANTS += [
+    # ---- C13 / C14
+    M("c13-seq-nonatomic", "C13", "sequence numbers from a read-modify-write counter", (P, "        return next(self._seqcounter)", "        n = getattr(self, '_n', 0)\n        self._n = n + 1\n        return n")),
+    M("c13-no-notify", "C13,C14", "notify_all removed after releasing the receive lock", (P, "            self._recvlock.release()\n            with self._recv_event:\n                self._recv_event.notify_all()", "            self._recvlock.release()")),
+    M("c13-ready-before-value", "C13", "ready flag published before the value", (A, "        self._is_exc = is_exc\n        self._obj = obj\n        self._is_ready = True", "        self._is_ready = True\n        self._is_exc = is_exc\n        self._obj = obj")),
+    M("c13-dispatch-twice", "C13", "a frame received while another thread waits is dispatched by both", (P, "        self._dispatch(data)\n        return True", "        self._dispatch(data)\n        if self._recv_event.waiters if hasattr(self._recv_event, 'waiters') else False:\n            self._dispatch(data)\n        return True")),
+    M("c13-notify-before-release", "C13,C14", "waiters notified before the receive lock is released, never after", (P, "        finally:\n            self._recvlock.release()\n            with self._recv_event:\n                self._recv_event.notify_all()", "        finally:\n            with self._recv_event:\n                self._recv_event.notify_all()\n            self._recvlock.release()")),
+    M("c14-wait-serve-forever", "C14,C15", "AsyncResult.wait serves with no time limit", (A, "            self._conn.serve(self._ttl)", "            self._conn.serve(None)")),
+    M("c13-callbacks-shared", "C13", "reply routed by the oldest pending callback instead of its seq", (P, "        _callback = self._request_callbacks.pop(seq, None)", "        _callback = self._request_callbacks.pop(min(self._request_callbacks) if self._request_callbacks and seq % 3 == 2 else seq, None)")),
 ]
